@@ -6,7 +6,7 @@ CONSTANTS
     Everys = {0, 1, 2, 3, 4, 5}
     Aligns = {FALSE, TRUE}
     Fills = {FALSE, TRUE}
-    MaxTime = 8
+    MaxTime = 7
     MaxPoints = 6
     PurgeGuard = FALSE
 INVARIANTS
